@@ -301,8 +301,14 @@ retry_fetch_lv:
         // this border is first node, but the key does not exist here
 
         // skip callback. will called in findnext
-        // expception: if start=end, findnext does not call cb, so need cb here
-        if (range_is_one_point) {
+        // expception: if start=end, findnext does not call cb, so need cb here.
+        // The same holds when start and end are different keys that continue below this layer
+        // in a next layer that does not exist (equal link tuples here, INCLUSIVE end): findnext
+        // treats the remaining range as empty although keys can be inserted into it.
+        if (range_is_one_point ||
+            (cmp_to_end == 0 && ctx->get_end_point() == scan_endpoint::INCLUSIVE &&
+             key_tup.get_key_length() > sizeof(key_slice_type) &&
+             key_tup == ctx->get_end_tuple(0))) {
             if (bnv_cb(target_border->get_version_ptr(), v_at_fetch_lv)) { return status::WARN_ABORTED_BY_USER; }
         }
 
